@@ -23,7 +23,7 @@ NAMES = "abcdefghijklmnopqrstuvwxyz"
 
 # ------------------------------------------------------------------ shapes: (n, edges) on integer nodes
 def chain(rng):
-    n = rng.randint(2, 7)
+    n = rng.randint(2, 12)
     return n, [(i, i + 1) for i in range(n - 1)]
 
 
@@ -261,8 +261,9 @@ def to_coq(case, obs):
     for q, r in zip(case["queries"], obs["res"]):
         fn = q[0]
         if fn in CTOR:
-            if "exc" in r:
-                return None                     # no exception is expected on existing nodes; shows up as a harness-visible skip
+            if "exc" in r:                      # no exception is expected on existing nodes: fails agree and holds
+                qs.append(f"QFail {cs(fn + ' raised ' + r['exc'])}")
+                continue
             qs.append(f"{CTOR[fn]} {csl(arg(q[1]))} {csl(r['set'])}")
         elif fn in ("fanin_depth", "fanout_depth"):
             qs.append(f"{'QFaninDepth' if fn == 'fanin_depth' else 'QFanoutDepth'} {csl(arg(q[1]))} {cres(r, 'int', cnat)}")
@@ -272,10 +273,11 @@ def to_coq(case, obs):
             lv = cexc(r) if "exc" in r else "(Ok %s)" % cpairs(r["levels"], cs, cnat)
             qs.append(f"QLevelize {cres(r['order'], 'list', csl)} {lv}")
         elif fn == "is_cyclic":
-            qs.append(f"QCyclic {cb(r['bool'])}" if "bool" in r else "QCyclic (negb (negb F))")
+            qs.append(f"QCyclic {cb(r['bool'])}" if "bool" in r else f"QFail {cs('is_cyclic raised ' + r['exc'])}")
         elif fn == "reconvergent":
             if "exc" in r:
-                return None
+                qs.append(f"QFail {cs(fn + ' raised ' + r['exc'])}")
+                continue
             qs.append(f"QReconv {csl(r['set'])}")
         elif fn == "kcuts":
             qs.append(f"QKcuts {cs(q[1])} {cnat(q[2])} {cpairs(obs['ords'], cs, csl)} {cres(r, 'cuts', lambda cc: cl(csl(x) for x in cc))}")
